@@ -50,10 +50,16 @@ func (r *runner) attempt(c *fedlab.Case, kind string) (*fedlab.Verdict, bool) {
 		return nil, false
 	}
 	if !contains(v.Failed(), kind) {
+		if os.Getenv("C01_DEBUG") != "" {
+			fmt.Fprintln(os.Stderr, "shrink: candidate passes:", v.Failed(), c.Op.Text())
+		}
 		return v, false
 	}
 	if r.lab != nil {
 		if err := r.lab.Validate(c.Op.Text()); err != nil {
+			if os.Getenv("C01_DEBUG") != "" {
+				fmt.Fprintln(os.Stderr, "shrink: candidate invalid:", err)
+			}
 			return v, false
 		}
 	}
@@ -104,18 +110,15 @@ func (r *runner) shrink(c *fedlab.Case, v *fedlab.Verdict) string {
 	// 2. operation
 	for progress := true; progress && time.Now().Before(deadline); {
 		progress = false
-		lists := selLists(best.Op)
-		for li := range lists {
+	search:
+		for li := range selLists(best.Op) {
 			n := len(*selLists(best.Op)[li])
+			if n <= 1 {
+				continue
+			}
 			for si := n - 1; si >= 0 && time.Now().Before(deadline); si-- {
-				if len(*selLists(best.Op)[li]) <= 1 {
-					break
-				}
 				op2 := best.Op.Clone()
 				l2 := selLists(op2)[li]
-				if si >= len(*l2) {
-					continue
-				}
 				*l2 = append(append([]*fedlab.Sel{}, (*l2)[:si]...), (*l2)[si+1:]...)
 				fedlab.PruneOperation(op2)
 				cand := *best
@@ -124,8 +127,12 @@ func (r *runner) shrink(c *fedlab.Case, v *fedlab.Verdict) string {
 					best, bestV = &cand, v2
 					progress = true
 					steps = append(steps, "selection deleted")
+					break search
 				}
 			}
+		}
+		if progress {
+			continue
 		}
 		// directives
 		op2 := best.Op.Clone()
